@@ -220,11 +220,13 @@ pub struct OpGen {
     /// The generator's own guess of each id's class under ideal behaviour (0 absent, 1 expired, 2 live).
     /// Only steers target selection towards operations that do something; never used by the oracle.
     pub shadow: [u8; 4],
+    /// (token, ttl) of the last create/update aimed at each id: lets an `update` write back exactly what is stored.
+    pub last_write: [Option<(u32, Ttl)>; 4],
 }
 
 impl OpGen {
     pub fn new(k: u8, zero_pct: u64) -> Self {
-        OpGen { k, next_tok: 0, zero_pct, shadow: [0; 4] }
+        OpGen { k, next_tok: 0, zero_pct, shadow: [0; 4], last_write: [None; 4] }
     }
 
     fn target(&mut self, r: &mut Rng, want_live: bool) -> u8 {
@@ -251,13 +253,20 @@ impl OpGen {
                 let ttl = gen_ttl(r, self.zero_pct);
                 if self.shadow[id as usize] != 2 {
                     self.written(id, ttl);
+                    self.last_write[id as usize] = Some((self.next_tok, ttl));
                 }
                 Op::Create { id, tok: self.next_tok, ttl }
             }
             28..=40 => {
                 let id = self.target(r, true);
+                if let (true, Some((tok, ttl))) = (r.chance(15, 100), self.last_write[id as usize]) {
+                    // an idempotent update: the very state and TTL of the last write to this id (within the same
+                    // second the stored row does not change at all)
+                    return Op::Update { id, tok, ttl };
+                }
                 self.next_tok += 1;
                 let ttl = gen_ttl(r, self.zero_pct);
+                self.last_write[id as usize] = Some((self.next_tok, ttl));
                 if self.shadow[id as usize] == 2 {
                     self.written(id, ttl);
                 }
